@@ -237,6 +237,17 @@ def _r7(chk: Check) -> None:
     """Values pass through the evaluator unchanged: what a callee returned and what a name is bound to are the results of
     the call node and of the name node - not a converted, copied or normalised version of them."""
     F = chk.facts
+    R10 = chk.rule('C07.R10', 'positional parameters, one binding per call (= C10.R5): every call of a lambda binds its arguments in a '
+                              'dict made for that call and pushed around the body - a frame shared between calls is rebound by a '
+                              'recursive or nested call of the same lambda', floor=1)
+    R11 = chk.rule('C07.R11', 'key-to-string dict cast and decimal-to-integer index cast (= C14.R1): every keyed accessor and the dict '
+                              'literal use str(key) on dicts and int(key) for Decimal positions, computed from the key of this call '
+                              '(not looked up in a memo keyed by ==)', floor=4)
+    chk.decided += ['lambda parameters are bound per call (R10)', 'the key casts of the reference semantics, on every keyed path (R11)']
+    from .c10 import _r5 as lambda_frames
+    from .c14 import key_cast_agreement
+    lambda_frames(chk, R10)
+    key_cast_agreement(chk, R11)
     R7 = chk.rule('C07.R7', 'value transparency: a call node returns exactly what the callee returned, a name node exactly the '
                             'value found in the scoped names (no conversion, copy or normalisation on the way out)', floor=2)
     chk.decided += ['results of calls and name lookups are handed on unchanged (R7)']
@@ -348,6 +359,8 @@ def _r8(chk: Check) -> None:
                     what = 'the child evaluation `%s`' % e.text()
                 else:
                     verdict, _d = classify_callee(F, e)
+                    if e.d.get('closure') is not None and e.d.get('inlined'):
+                        continue        # a thunk of the package's own, run here: what its body calls is judged call by call
                     if verdict == 'dynamic' and _program_supplied(freeze(e.func)):
                         what = 'the call `%s` of a function the program supplies' % e.text()
                 if what is None:
